@@ -6,6 +6,7 @@
 //@ cbmc all --unwind 11 --unwinding-assertions
 //@ entry h_attnorm
 //@ note W: complete for every raw attribute value of length < NV (all 16-bit units, incl. escape markers), every declared type, standalone/validate flags
+//@ note SGXMLScanner never receives DTD attribute definitions: type Enumeration is excluded by an assumption
 //@ note stubs: XMLAttDef accessors, reader isWhitespace = production [3] S, XMLBuffer as a concrete array, emitError counters (trusted harness models)
 #define VERIF_DEFINE_GHOSTS
 #include "verif_prelude.h"
@@ -25,4 +26,5 @@ method toFill.append => XB_append
 @*/
 #define SC_CALL(def, val, out) SC_normalizeAttValue(def, (const XMLCh*)0, val, out)
 #define HAS_TYPE 1
+#define ATTNORM_NO_ENUMERATION 1
 //@ include attnorm_harness.inc
